@@ -667,7 +667,7 @@ class Hdf5Saver:
         """Save a (numpy) masked array."""
         filled = obj.filled()
         fill_value = obj.fill_value
-        if np.any((filled == fill_value) == obj.mask):
+        if np.any((filled == fill_value) != obj.mask):
             # there are elements in `obj` that are `fill_value`, so need to save
             # data and mask separately
             h5gr, subpath = self.create_group_for_obj(path, obj)
